@@ -484,7 +484,9 @@ def oracle_unitary(r):
         ("unroll_circuit_op_greedy_frontier(deep)", lambda c: cirq.unroll_circuit_op_greedy_frontier(c, deep=True, tags_to_check=None)),
     ):
         out = fn(resolved)
-        if any(isinstance(op.untagged, cirq.CircuitOperation) for op in out.all_operations()):
+        # a zero-repetition, empty or qubit-less sub-circuit is a no-op / a pure phase; some primitives leave it in place, which changes nothing
+        if any(isinstance(op.untagged, cirq.CircuitOperation) and op.untagged.repetitions != 0 and len(op.untagged.circuit) > 0
+               and len(op.qubits) > 0 for op in out.all_operations()):
             raise Violation(f"{name} left a CircuitOperation in the circuit")
         extra = set(out.all_qubits()) - set(qs)
         if extra:
@@ -802,11 +804,11 @@ def _documented_rejections(oracle):
 oracle_keys = _documented_rejections(oracle_keys)
 
 SUBCHECKS = [
-    SubCheck("unitary", _case(measure=False), oracle_unitary, quick=500, thorough=20000, shards_quick=6,
+    SubCheck("unitary", _case(measure=False), oracle_unitary, quick=1200, thorough=20000, shards_quick=6,
              frozen_keys=("names", "perm", "n")),
     SubCheck("unroll_greedy_earliest", _case(measure=False), oracle_unroll_greedy_earliest, quick=60, thorough=2000, shards_quick=1, shards_thorough=2,
              frozen_keys=("names", "perm", "n")),
-    SubCheck("keys_distribution", _case(measure=True, symbolic=False, max_depth=2), oracle_keys, quick=1200, thorough=30000, shards_quick=8,
+    SubCheck("keys_distribution", _case(measure=True, symbolic=False, max_depth=2), oracle_keys, quick=2400, thorough=30000, shards_quick=8,
              frozen_keys=("names", "perm", "n")),
-    SubCheck("repeat_until", _until_case(), oracle_until, quick=200, thorough=5000, shards_quick=2),
+    SubCheck("repeat_until", _until_case(), oracle_until, quick=300, thorough=5000, shards_quick=2),
 ]
